@@ -65,6 +65,7 @@ class SuitEnvelope(InputOutputMixin, EnvelopeApiMixin):
         severable = [
             "suit-payload-fetch",
             "suit-install",
+            "suit-install-legacy",
             "suit-dependency-resolution",
             "suit-candidate-verification",
             "suit-text",
